@@ -3,6 +3,7 @@ package adaptation
 // C17: only well-formed, timely registrations are activated; the socket is private.
 
 import (
+	"time"
 	"context"
 	"errors"
 	stdnet "net"
@@ -64,6 +65,7 @@ type acceptWorld struct {
 	next    int
 	accepts int
 	done    chan struct{}
+	idxs    []string // indices the connecting plugins register with (default 0<i>)
 }
 
 var c17World *acceptWorld
@@ -116,7 +118,11 @@ func verifNewExternal(r *Adaptation, conn stdnet.Conn) (*plugin, error) {
 			assume(bnot(band(name != "", refValidIndex(idx))))
 			p.RegisterPlugin(context.Background(), &RegisterPluginRequest{PluginName: name, PluginIdx: idx})
 		default:
-			p.RegisterPlugin(context.Background(), &RegisterPluginRequest{PluginName: "plugin", PluginIdx: "0" + itoaDigit(i)})
+			idx := "0" + itoaDigit(i)
+			if i < len(aw.idxs) {
+				idx = aw.idxs[i]
+			}
+			p.RegisterPlugin(context.Background(), &RegisterPluginRequest{PluginName: "plugin", PluginIdx: idx})
 		}
 	}()
 	return p, nil
@@ -124,12 +130,26 @@ func verifNewExternal(r *Adaptation, conn stdnet.Conn) (*plugin, error) {
 
 func itoaDigit(i int) string { return string(rune('0' + i)) }
 
-func runAcceptLoop(kinds []int) *acceptWorld {
+const c17RegTimeout, c17ReqTimeout = 7000 * time.Millisecond, 1500 * time.Millisecond
+
+func runAcceptLoop(kinds []int) *acceptWorld { return runAcceptLoopWith(kinds, nil, nil) }
+
+// runAcceptLoopWith: as runAcceptLoop, with already active plugins at indices pre (ascending) and the
+// connecting plugins registering with indices idxs.
+func runAcceptLoopWith(kinds []int, pre []string, idxs []string) *acceptWorld {
 	w := &envWorld{}
 	r := &Adaptation{}
 	w.r = r
-	aw := &acceptWorld{r: r, w: w, kinds: kinds, done: make(chan struct{})}
+	aw := &acceptWorld{r: r, w: w, kinds: kinds, done: make(chan struct{}), idxs: idxs}
 	c17World = aw
+	SetPluginRegistrationTimeout(c17RegTimeout)
+	SetPluginRequestTimeout(c17ReqTimeout)
+	for i, idx := range pre {
+		ep := &envPlugin{w: w, id: 100 + i}
+		rpcc, rpcs := envRPC()
+		r.plugins = append(r.plugins, &plugin{idx: idx, base: "pre", events: ValidEvents, r: r, impl: &pluginType{ttrpcImpl: ep},
+			mux: &envMux{}, rpcl: &envListener{}, rpcc: rpcc, rpcs: rpcs, closeC: make(chan struct{}), regC: make(chan error, 1)})
+	}
 	r.syncFn = func(ctx context.Context, cb SyncCB) error {
 		_, err := cb(ctx, nil, nil)
 		return err
@@ -179,6 +199,10 @@ func H_C17_accept2() {
 func checkActivation(aw *acceptWorld) {
 	r := aw.r
 	vassert(aw.accepts == len(aw.kinds)+1, "accept-loop-stuck")
+	// the only timers of the handshake are the waits for registration: each is the registration timeout
+	for i := 0; i < timerCount(); i++ {
+		vassert(timerNs(i) == int64(c17RegTimeout), "ghost-registration-wait-not-bounded-by-the-registration-timeout")
+	}
 	r.Lock()
 	active := append([]*plugin{}, r.plugins...)
 	r.Unlock()
